@@ -593,24 +593,34 @@ func (tree *MutableTree) enableFastStorageAndCommitIfNotEnabled() (bool, error) 
 }
 
 func (tree *MutableTree) enableFastStorageAndCommit() error {
-	var err error
+	_, latestVersion, err := tree.ndb.getLatestVersion()
+	if err != nil {
+		return err
+	}
 
-	itr := NewIterator(nil, nil, true, tree.ImmutableTree)
+	// The fast index always describes the latest version, also when an older
+	// version is currently loaded.
+	src := tree.ImmutableTree
+	srcVersion := tree.version
+	if tree.version > 0 && latestVersion != tree.version {
+		src, err = tree.GetImmutable(latestVersion)
+		if err != nil {
+			return err
+		}
+		srcVersion = latestVersion
+	}
+
+	itr := NewIterator(nil, nil, true, src)
 	defer itr.Close()
 	var upgradedFastNodes uint64
 	for ; itr.Valid(); itr.Next() {
 		upgradedFastNodes++
-		if err = tree.ndb.SaveFastNodeNoCache(fastnode.NewNode(itr.Key(), itr.Value(), tree.version)); err != nil {
+		if err = tree.ndb.SaveFastNodeNoCache(fastnode.NewNode(itr.Key(), itr.Value(), srcVersion)); err != nil {
 			return err
 		}
 	}
 
 	if err = itr.Error(); err != nil {
-		return err
-	}
-
-	_, latestVersion, err := tree.ndb.getLatestVersion()
-	if err != nil {
 		return err
 	}
 
